@@ -1,7 +1,7 @@
 """Property -> obligations registry.  Section numbers refer to /verif/DESIGN.md."""
 import functools
 
-from .rules import tables, truth, da, order, bond, sampler, own, exc, keys, sib, prov, tok, emit, extra
+from .rules import tables, truth, da, order, bond, sampler, own, exc, keys, sib, prov, tok, emit, extra, ring
 
 COMMON_ASSUMPTIONS = [
     "pysmiles, networkx, numpy and RDKit behave as documented (their code is not analysed)",
@@ -76,7 +76,7 @@ R = {
     "own_templates_sampler": named("own_templates_sampler", own.own_templates, "sampler"),
     "own_mutable_defaults": tiered(own.own_mutable_defaults),
     "exc_dangling_ring": tiered(exc.exc_dangling_ring),
-    "sib_ring_handlers": tiered(exc.sib_ring_handlers),
+    "sib_ring_handlers": tiered(ring.ring_protocol),
     "exc_duplicate_edge": tiered(exc.exc_duplicate_edge),
     "exc_missing_fragment": tiered(exc.exc_missing_fragment),
     "exc_annotations": tiered(exc.exc_annotations),
@@ -105,7 +105,7 @@ R = {
     "prov_atom_names": tiered(extra.prov_atom_names),
     "prov_open_bonds": tiered(extra.prov_open_bonds),
     "prov_rdkit_attrs": tiered(extra.prov_rdkit_attrs),
-    "prov_ring_edges": tiered(extra.prov_ring_edges),
+    "prov_ring_edges": tiered(ring.ring_protocol),
     "sent_order_zero": tiered(extra.sent_order_zero),
     "sent_anchor_key": tiered(extra.sent_anchor_key),
     "prov_option_forwarding": tiered(extra.prov_option_forwarding),
@@ -156,13 +156,13 @@ prop("C03", ["tt_compatible", "prov_matcher_shape", "who_may_bond", "prov_matche
      "'exactly that many' bonds depends on first-match search order over runtime lists",
      floors={"PROV.option-forwarding": 8, "ORD.complete-loops": 11, "SENT.order-zero": 20, "TT.compatible": 1, "PROV.matcher-shape": 4, "OWN.sole-bond-site": 1, "PROV.matcher-args": 1,
              "PROV.legacy-forwarded": 2, "TRIP.bond-loop": 3, "PAIR.resolver-consume": 3, "PROV.bond-edge": 2, "PROV.bond-order": 1})
-prop("C04", ["tab_reader_symbols", "da_reader", "da_globals_reader", "sib_ring_handlers", "prov_ring_edges", "prov_node_attributes", "sent_order_zero"],
+prop("C04", ["tab_reader_symbols", "da_reader", "da_globals_reader", "sib_ring_handlers", "prov_node_attributes", "sent_order_zero"],
      "a sliver: the reader's symbol table equals the documented one and its guard admits every symbol; no possibly-unbound local on a feasible path of the "
      "reader functions; the %nn and digit ring handlers perform the same open/close protocol; a ring bond joins opening and closing node with the order "
      "written at the opening marker and the pending ring order is reset after every marker; node attributes come from the node's own text",
      "whether nodes, edges and orders are the ones the grammar denotes: index arithmetic over the pattern string (simultaneous branch closings, "
      "unbounded %nn digits) has no structural witness in reach",
-     floors={"SENT.order-zero": 20, "TAB.reader-symbols": 2, "DA.reader": 5, "SIB.S2-ring-handlers": 3, "PROV.ring-edges": 6, "PROV.node-attributes": 4})
+     floors={"SENT.order-zero": 20, "TAB.reader-symbols": 2, "DA.reader": 5, "SIB.S2-ring-handlers": 3, "PROV.ring-edges": 5, "PROV.node-attributes": 4})
 prop("C05", ["da_reader", "trip_multiplier", "sib_multiplier_scans", "sent_anchor_key", "sent_order_zero"],
      "definite assignment in the branch expansion block (base_anchor); trip counts of node loop, recipe entries, _expand_branch and the branch loop "
      "(multiplier - 1); both multiplier number scans stop at the same token set including the order symbols",
@@ -178,7 +178,7 @@ prop("C07", ["tab_writer_symbols", "emit_write_graph", "prov_ring_edges", "sent_
      "guard assignments: tree-edge symbol present iff needed and placed where the reader of that format looks (before '(' in CGsmiles, inside in "
      "OpenSMILES), ring symbol immediately before a new marker iff needed, independent of the node-format flag",
      "that the reader reconstructs the graph from a string of the documented language (C04), DFS and ring-marker allocation, more than 9 open rings",
-     floors={"PROV.ring-marker": 2, "PROV.ring-edges": 6, "TAB.writer-symbols": 2, "EMIT.write_graph": 2, "SIB.S5-format-flag": 1})
+     floors={"PROV.ring-marker": 2, "PROV.ring-edges": 5, "TAB.writer-symbols": 2, "EMIT.write_graph": 2, "SIB.S5-format-flag": 1})
 prop("C08", ["emit_format_bonding", "tab_fragment_symbols", "tok_rules", "emit_write_graph", "prov_option_forwarding"],
      "format_bonding only ever extends its accumulator and writes SYM? '[' descriptor[:-1] ']' per descriptor with the symbol of its own order for "
      "orders 0, 2, 3, 4; the fragment reader maps every written symbol back to its order; the tokenizer's descriptor rules incl. `is not None` for the pending order",
